@@ -319,11 +319,13 @@ Section Send.
           ++ match msg with Some m => if value_ok m then [(B "reason", m)] else [] | None => [] end)
          (error_body code msg) None None.
 
-  (** [CriticalRequestComponents::apply_to_response] (not a stream) and the 416 replacement *)
+  (** [CriticalRequestComponents::apply_to_response] (not a stream; not for a 304, which is sent as it is —
+      C09's repair) and the 416 replacement *)
   Definition apply_sanitize (r : reply0) : outcome reply0 :=
     match r0_sanitize r with
     | None => Ok r
     | Some rg =>
+        if r0_status r =? 304 then Ok r else
         match apply_range true rg (r0_status r) (r0_body r) with
         | Ok x =>
             let hs1 := match r_content_range x with
